@@ -95,6 +95,11 @@ def catalogue():
   C["stream<3"] = S(lambda s: Stream(s) < 3, lambda k: k)
   C["stream+stream"] = S(lambda a, b: Stream(a) + Stream(b), lambda k: k, nsrc=2)
   C["stream*list"] = S(lambda s: Stream(s) * list(range(1, 60)), lambda k: k, chain=False)
+  # reflected operators with a finite plain iterable on the left: it ends first, the Stream has been read
+  # exactly once per output
+  C["list+stream"] = S(lambda s: [1, 2, 3] + Stream(s), lambda k: min(k, 3), chain=False, finite=3)
+  C["range-stream"] = S(lambda s: range(4) - Stream(s), lambda k: min(k, 4), chain=False, finite=4)
+  C["tuple*stream"] = S(lambda s: (5, 6) * Stream(s), lambda k: min(k, 2), chain=False, finite=2)
   C["gen+stream"] = S(lambda a, b: (x for x in a) + Stream(b), lambda k: k, nsrc=2)
   C["map"] = S(lambda s: Stream(s).map(lambda v: v + 10), lambda k: k)
   C["filter-odd"] = S(lambda s: Stream(s).filter(odd), lambda k: 2 * k, chain=False, valuedep=True)
@@ -261,6 +266,22 @@ def catalogue():
     return build
   C["streamix-note"] = S(mixnote(False), lambda k: (min(k, 4), max(k - 1, 0)), nsrc=2)
   C["streamix-keep-note"] = S(mixnote(True), lambda k: (min(k, 4), max(k - 1, 0)), nsrc=2)
+  _idle = []
+  def mix_beside_idle(keep):
+    # another mixer exists at the same time and holds an event that nobody asks for: reading this mixer
+    # reads nothing of the other one's sources
+    def build(a, b):
+      other = Streamix(keep=keep)
+      other.add(0, a)
+      other.add(1, [7, 7])
+      del _idle[:]
+      _idle.append(other)
+      m = Streamix()
+      m.add(0, b)
+      return m
+    return build
+  C["streamix-beside-idle-mixer"] = S(mix_beside_idle(False), lambda k: (0, k), nsrc=2)
+  C["streamix-beside-idle-keep-mixer"] = S(mix_beside_idle(True), lambda k: (0, k), nsrc=2)
   C["streamix"] = S(mix(False), lambda k: (k, max(k - 2, 0)), nsrc=2)
   C["streamix-keep"] = S(mix(True), lambda k: (k, max(k - 2, 0)), nsrc=2)
   C["modulo_counter(start)"] = S(lambda s: modulo_counter(Stream(s), 7., 2.), lambda k: k)
